@@ -165,6 +165,8 @@ def run(an: Analysis, rep):
                                                 "is co_consts[operand] itself, type- and bit-exact (a str with a lone surrogate, bytes, -0.0, nested tuples)"))
     rep.run(_agr, an, rep, "R02.A", ["from_code"])
     rep.run(_idr, an, rep, "R02.I", ["from_code"])
+    from .common import process_state_rule as _psr2
+    rep.run(_psr2, an, rep, "R02.T", ["from_code"])
     interps = []
     for V in VERSIONS:
         cfg = vname(V)
@@ -935,6 +937,10 @@ def _decoder_witnesses(V):
          [("LOAD_NAME", 0), ("POP_JUMP_IF_FALSE", None), ("JUMP_FORWARD", None), ("BUILD_TUPLE", 3), (E_, 0), ("JUMP_ABSOLUTE", None), ("POP_TOP", 5), (E_, 1), ("BUILD_LIST", 2), ("RETURN_VALUE", 0)],
          ("a",), (), (), (), ()),
         # POP_JUMP_IF_TRUE -> offset 6, the FIRST code unit (a zero prefix) of the instruction whose opcode sits at 8; JUMP_ABSOLUTE at 4 -> itself; JUMP_FORWARD +0 -> the next instruction
+        # offset 10 is the target of an absolute AND of a relative jump, offset 14 of another jump behind it
+        ("one offset targeted by an absolute and by a relative jump, another target behind it",
+         [("LOAD_NAME", 0), ("POP_JUMP_IF_TRUE", ("abs", 10)), ("JUMP_FORWARD", ("rel", 4)), ("LOAD_NAME", 0), ("POP_JUMP_IF_FALSE", ("abs", 14)), ("LOAD_NAME", 1), ("POP_TOP", 0), ("RETURN_VALUE", 0)],
+         ("a", "b"), (), (), (), ()),
         ("a jump to an instruction with a redundant prefix, a jump to itself, a relative jump of zero",
          [("LOAD_NAME", 0), ("POP_JUMP_IF_TRUE", ("abs", 6)), ("JUMP_ABSOLUTE", ("abs", 4)), (E_, 0), ("LOAD_NAME", 1), ("JUMP_FORWARD", ("rel", 0)), ("RETURN_VALUE", 0)],
          ("a", "b"), (), (), (), ()),
